@@ -35,6 +35,10 @@ pub struct Case {
     pub questions: Vec<WQ>,
     /// 0 authoritative-only, 1 recursive, 2 forwarding
     pub mode: u8,
+    /// recursive mode: the root refers to a second lying server (referral,
+    /// then answer) instead of answering itself
+    #[serde(default)]
+    pub referral_first: bool,
 }
 
 const CACHE_TTL_BASE: u32 = 7_000;
@@ -92,7 +96,7 @@ impl Prop for LocalWins {
         900
     }
     fn cases(&self, tier: Tier) -> u64 {
-        tier.pick(12_000, 500_000)
+        tier.pick(80_000, 3_000_000)
     }
     fn generate(&self, g: &mut Gen) -> Case {
         // apexes: nested authoritative zones, the root zone (non-authoritative), sometimes a non-root non-authoritative zone
@@ -152,7 +156,7 @@ impl Prop for LocalWins {
             let name = if !owners.is_empty() && g.chance(1, 2) { g.pick(&owners).0 } else { g.pick(&names) };
             WQ { name, qtype: g.pick(&[T_A, T_A, T_AAAA, T_NS, T_CNAME, T_MX, T_TXT, T_SOA, Q_ANY, Q_AXFR]), qclass: 1 }
         });
-        Case { zones, hosts, cache, questions, mode: g.below(3) as u8 }
+        Case { zones, hosts, cache, questions, mode: g.below(3) as u8, referral_first: g.bool() }
     }
 
     fn check(&self, c: &Case) -> Outcome {
@@ -213,9 +217,27 @@ impl Prop for LocalWins {
         }
         // --- the liar upstream
         let forwarding = c.mode == 2;
+        let referral_first = c.referral_first && c.mode == 1;
         let mock = Mock::new(Box::new(move |ctx: &Ctx| {
             let Some(req) = ctx.request else { return Action::Silence };
             let Some(q) = req.questions.first() else { return Action::Silence };
+            // two-step upstream: the root (10.0.0.1) refers everything below a
+            // top-level label to "ns.liar.<tld>" at 10.0.0.2, which then lies
+            let qn = q.name.lower();
+            if referral_first && ctx.dest.ip() == std::net::IpAddr::from([10, 0, 0, 1]) && qn.depth() >= 2 {
+                let tld = N(vec![qn.0[qn.depth() - 1].clone()]);
+                let host = tld.child(b"liar").child(b"ns");
+                if qn != host {
+                    let m = WMsg {
+                        id: 0, qr: true, opcode: 0, aa: false, tc: false, rd: req.rd, ra: false, rcode: 0,
+                        questions: vec![q.clone()],
+                        answers: vec![],
+                        authority: vec![WRR { name: tld, rtype: T_NS, rclass: 1, ttl: UPSTREAM_TTL, data: WData::Name(host.clone()) }],
+                        additional: vec![WRR { name: host, rtype: T_A, rclass: 1, ttl: UPSTREAM_TTL, data: WData::A([10, 0, 0, 2]) }],
+                    };
+                    return Action::Reply { bytes: wire_reply(m, req, ctx.tcp), delay_ms: 10, label: "liar-referral".into() };
+                }
+            }
             let m = WMsg {
                 id: 0, qr: true, opcode: 0, aa: !forwarding, tc: false, rd: req.rd, ra: forwarding, rcode: 0,
                 questions: vec![q.clone()],
